@@ -160,6 +160,9 @@ macro_rules! impl_inner_observer {
         let mut inner = self.0.rc_deref_mut();
         if let Some(data) = inner.as_mut() {
           if let Some(task) = data.subscribe_tasks.pop_front() {
+            // The queued inner observable may emit synchronously when it is
+            // subscribed, release the shared state before running the task.
+            drop(inner);
             task();
           } else {
             data.subscribed -= 1;
